@@ -25,6 +25,7 @@ type caseSpec struct {
 	Pattern    []int  `json:"rotate_after_records,omitempty"`
 	PayloadLen int    `json:"payload_len,omitempty"`
 	Mode       string `json:"repair_mode,omitempty"` // fresh | in-place | over-existing
+	Ticks      []int  `json:"ticks_after_underlying_writes,omitempty"`
 	History    string `json:"history,omitempty"`     // lives: M write msg, E write next EndHeight, R rotate, S stop+restart
 }
 
@@ -50,7 +51,7 @@ func sig(class, oracle, via string) string {
 	if strings.HasPrefix(oracle, "search-") {
 		if class == "clean" || class == "rotation" {
 			class = "undamaged-log"
-		} else if class == "log-with-restart-on-empty-head" {
+		} else if class == "log-with-restart-on-empty-head" || class == "rotation-between-writes-of-one-record" {
 			// kept: an undamaged multi-life log in which a restart found an empty head after a rotation
 		} else {
 			class = "damaged-log"
